@@ -41,6 +41,7 @@ import OpenFGAVerif.Proofs.DfsGSound
 import OpenFGAVerif.Proofs.DfsGClean
 import OpenFGAVerif.Model.CheckV1
 import OpenFGAVerif.Gen.CheckV2
+import OpenFGAVerif.Props.ReqClone
 
 namespace OpenFGAVerif.C03
 open OpenFGAVerif.BoolSys OpenFGAVerif.DfsG OpenFGAVerif.CheckV2 OpenFGAVerif.Vocab
